@@ -742,7 +742,13 @@ def gen_values(rng):
             procs.append(nm)
         prev = cur
     devs.append({'k': 'K', 'n': 'K0', 'c': rng.choice([0, 0.5, 1]), 'up': prev})
+    if rng.random() < 0.4:
+        devs[-1]['rvaladd'] = rng.choice([0.5, 1, 2.5])      # a callback registered on the sink changes the value
     acts = []
+    for _ in range(rng.choice([0, 0, 2, 4])):
+        # parts waiting in a source are revalued before they leave
+        acts.append([rng.choice(TIMES), rng.choice(PRIOS), 'revalue', rng.choice([f'S{i}' for i in range(ns)]),
+                     rng.choice([0.5, 1, -0.25, 3])])
     for _ in range(rng.choice([1, 3, 6])):
         t = rng.choice(TIMES)
         pr = rng.choice(PRIOS)
